@@ -148,7 +148,8 @@ class RealModel:
             built.append(node)
             v = cell.value
             if v is None and node not in inputs:
-                cache[node] = ['?']
+                # '?!': read as no value from stored results, not known to be reset
+                cache[node] = ['?!'] if getattr(cell, 'value_unknown', False) else ['?']
             else:
                 cache[node] = W.js_val(v)
         edges = sorted({(W.node_of(u.address.address), W.node_of(v.address.address))
